@@ -23,7 +23,8 @@ TNS = 'urn:c17'
 NS_S11 = 'http://schemas.xmlsoap.org/soap/envelope/'
 NS_S12 = 'http://www.w3.org/2003/05/soap-envelope'
 NS_XI = 'http://www.w3.org/2001/XInclude'
-PREFIX = {TNS: 't', NS_S11: 'e11', NS_S12: 'e12', NS_XI: 'xi'}
+NS_XSI = 'http://www.w3.org/2001/XMLSchema-instance'
+PREFIX = {TNS: 't', NS_S11: 'e11', NS_S12: 'e12', NS_XI: 'xi', NS_XSI: 'xsi'}
 
 BOOL_ARGS = ['attribute_defaults', 'dtd_validation', 'load_dtd', 'no_network', 'ns_clean', 'recover',
              'remove_blank_text', 'remove_pis', 'strip_cdata', 'huge_tree', 'compact']
@@ -137,6 +138,24 @@ def qname(tag, used):
     return tag
 
 
+def render_dtd(dtd, world):
+    if dtd is None:
+        return ''
+    out = ['<!DOCTYPE x']
+    if dtd.get('sub') is not None:
+        out.append(' SYSTEM "%s"' % world.uri(dtd['sub']))
+    out.append(' [')
+    for n, d in dtd.get('ents', []):
+        if 'ext' in d:
+            out.append('<!ENTITY e%d SYSTEM "%s">' % (n, world.uri(d['ext'])))
+        else:
+            out.append('<!ENTITY e%d "%s">' % (n, render_pieces(d['int'], esc_entval)))
+    for i, u in enumerate(dtd.get('pe', [])):
+        out.append('<!ENTITY %% p%d SYSTEM "%s"> %%p%d;' % (i, world.uri(u), i))
+    out.append(']>')
+    return ''.join(out)
+
+
 def render(doc, world, xmldecl=False, encoding='utf-8'):
     """abstract document (the JSON given to the model) -> bytes"""
     out = []
@@ -144,20 +163,7 @@ def render(doc, world, xmldecl=False, encoding='utf-8'):
         out.append('<?xml version="1.0" encoding="iso-8859-1"?>')
     elif xmldecl:
         out.append('<?xml version="1.0" encoding="utf-8"?>')
-    dtd = doc.get('dtd')
-    if dtd is not None:
-        out.append('<!DOCTYPE x')
-        if dtd.get('sub') is not None:
-            out.append(' SYSTEM "%s"' % world.uri(dtd['sub']))
-        out.append(' [')
-        for n, d in dtd.get('ents', []):
-            if 'ext' in d:
-                out.append('<!ENTITY e%d SYSTEM "%s">' % (n, world.uri(d['ext'])))
-            else:
-                out.append('<!ENTITY e%d "%s">' % (n, render_pieces(d['int'], esc_entval)))
-        for i, u in enumerate(dtd.get('pe', [])):
-            out.append('<!ENTITY %% p%d SYSTEM "%s"> %%p%d;' % (i, world.uri(u), i))
-        out.append(']>')
+    out.append(render_dtd(doc.get('dtd'), world))
     used = set()
     body = []
     first = True
@@ -247,13 +253,27 @@ def build_stack():
         __namespace__ = TNS
         _type_info = [('val', XmlData(Unicode)), ('at', XmlAttribute(Unicode))]
 
+    from spyne import Integer, ByteArray, Iterable
+    from spyne.model.enum import Enum
+    import base64 as _b64
+
     class Inner(ComplexModel):
         __namespace__ = TNS
-        _type_info = [('v', Unicode), ('arr', Array(Unicode))]
+        _type_info = [('v', Unicode), ('arr', Array(Unicode)), ('multi', Unicode(max_occurs=3))]
 
     class Outer(ComplexModel):
         __namespace__ = TNS
         _type_info = [('inner', Inner)]
+
+    class Hdr(ComplexModel):
+        __namespace__ = TNS
+        _type_info = [('token', Unicode)]
+
+    class ProbeResult(ComplexModel):
+        __namespace__ = TNS
+        _type_info = [('d', AnyDict), ('x', AnyXml), ('h', AnyHtml), ('w', Wrap), ('o', Outer)]
+
+    Color = Enum('pre', 'preX', type_name='Color')
 
     def flat(o):
         if isinstance(o, dict):
@@ -267,14 +287,19 @@ def build_stack():
         return None if e is None else _et.tostring(e).decode('utf-8', 'replace')
 
     class Svc(ServiceBase):
+        __in_header__ = Hdr
+
         @rpc(Unicode, Item, Array(Unicode), _returns=Unicode)
         def echo(ctx, s, item, lst):
+            hdr = getattr(ctx, 'in_header', None)
             rec = {'s': s, 'name': None if item is None else item.name, 'tag': None if item is None else item.tag,
-                   'note': None if item is None else item.note, 'lst': None if lst is None else list(lst)}
+                   'note': None if item is None else item.note, 'lst': None if lst is None else list(lst),
+                   'hdr.token': getattr(hdr, 'token', None) if hdr is not None and not isinstance(hdr, (list, tuple)) else
+                   (getattr(hdr[0], 'token', None) if hdr else None)}
             captured.append(rec)
-            return 'R[%s|%s|%s|%s|%s]' % (s, rec['name'], rec['tag'], rec['note'], rec['lst'])
+            return 'R[%s|%s|%s|%s|%s|%s]' % (s, rec['name'], rec['tag'], rec['note'], rec['lst'], rec['hdr.token'])
 
-        @rpc(AnyDict, AnyXml, AnyHtml, Wrap, Outer, _returns=Unicode)
+        @rpc(AnyDict, AnyXml, AnyHtml, Wrap, Outer, _returns=ProbeResult)
         def probe(ctx, d, x, h, w, o):
             inner = None if o is None else o.inner
             key = None
@@ -284,9 +309,21 @@ def build_stack():
                    'x': ser(x), 'h': ser(h),
                    'w.val': None if w is None else w.val, 'w@at': None if w is None else w.at,
                    'o.v': None if inner is None else inner.v,
-                   'o.arr0': None if inner is None or not inner.arr else inner.arr[0]}
+                   'o.arr0': None if inner is None or not inner.arr else inner.arr[0],
+                   'o.multi0': None if inner is None or not inner.multi else inner.multi[0]}
             captured.append(rec)
-            return 'P[%s|%s|%s|%s|%s|%s|%s]' % (rec['d'], rec['x'], rec['h'], rec['w.val'], rec['w@at'], rec['o.v'], rec['o.arr0'])
+            # what was received goes back out: the response path of every kind runs under the same oracle
+            return ProbeResult(d=d, x=x, h=h, w=w, o=o)
+
+        @rpc(Integer, ByteArray, Color, Iterable(Unicode), _returns=Unicode)
+        def typed(ctx, n, b, e, it):
+            it = None if it is None else list(it)
+            rec = {'n': None if n is None else str(n),
+                   'b': None if b is None else _b64.b64encode(b''.join(b)).decode(),
+                   'e': None if e is None else str(e),
+                   'it0': None if not it else it[0]}
+            captured.append(rec)
+            return 'T[%s|%s|%s|%s]' % (rec['n'], rec['b'], rec['e'], rec['it0'])
 
     return Application, Svc, captured
 
@@ -399,7 +436,12 @@ class Worker:
         body = render(q['req']['doc'], self.world, xmldecl=q['req'].get('unicode_decl', False), encoding=enc)
         cs = q['req'].get('charset', 'utf-8')       # what the Content-Type header announces: a charset name or None
         ctype = 'text/xml' + ('; charset=%s' % cs if cs else '')
-        if q['req'].get('multipart'):
+        if q['req'].get('multipart') == 'single':
+            # multipart/related with the envelope as its only part: no attachment is joined, the envelope reaches
+            # _parse_xml_string as text
+            body = b'--BOUND\r\nContent-Type: text/xml; charset=utf-8\r\nContent-ID: <root>\r\n\r\n' + body + b'\r\n--BOUND--\r\n'
+            ctype = 'multipart/related; boundary="BOUND"; start="<root>"; type="text/xml"'
+        elif q['req'].get('multipart'):
             # the attachment is named by its Content-ID, or ('cloc') by its Content-Location with an empty Content-ID:
             # the two branches of collapse_swa that join an attachment into the envelope
             ident = b'Content-ID: <>\r\nContent-Location: att1' if q['req']['multipart'] == 'cloc' else b'Content-ID: <att1>'
@@ -465,13 +507,48 @@ class Worker:
         return {'seen': self.seen, 'fault': fault, 'crash': crash, 'status': status,
                 'captured': list(self.captured), 'resp': resp.decode('utf-8', 'replace')}
 
+    def op_schema(self, q):
+        """the schema tools (spyne.util.xml.parse_schema_string -> interface/xml_schema/parser.py): the XSD of this very
+        application with a hostile DOCTYPE, an entity reference in an element name and one in a documentation text"""
+        from lxml import etree
+        from spyne.util.xml import parse_schema_string
+        from spyne.interface.xml_schema import XmlSchema
+        if getattr(self, 'xsd', None) is None:
+            xs = XmlSchema(self.app('xml', 'defaults').interface)
+            xs.build_interface_document()
+            self.xsd = etree.tostring(xs.get_interface_document()['tns']).decode()
+        head, rest = self.xsd.split('>', 1)
+        extra = '<xs:annotation><xs:documentation>%s</xs:documentation></xs:annotation>' % render_pieces(q['text'], esc_text)
+        extra += '<xs:element name="hostile%s" type="xs:string"/>' % render_pieces(q['attr'], esc_attr)
+        doc = (render_dtd(q['dtd'], self.world) + head + '>' + extra + rest).encode()
+        try:
+            if q.get('via') == 'file':
+                # parse_schema_file + xs:include: the hostile document is the included file (directory not watched:
+                # reading the schema files themselves is what the tool is for)
+                from spyne.util.xml import parse_schema_file
+                d_ = self.world.dir + '-xsd'
+                os.makedirs(d_, exist_ok=True)
+                inc = ('<xs:schema xmlns:xs="http://www.w3.org/2001/XMLSchema" targetNamespace="%s">%s'
+                       '<xs:simpleType name="IncT"><xs:restriction base="xs:string"><xs:maxLength value="9"/></xs:restriction>'
+                       '</xs:simpleType></xs:schema>' % (TNS, extra))
+                open(os.path.join(d_, 'inc.xsd'), 'w').write(render_dtd(q['dtd'], self.world) + inc)
+                open(os.path.join(d_, 'main.xsd'), 'w').write(head + '><xs:include schemaLocation="inc.xsd"/>' + rest)
+                r = parse_schema_file(os.path.join(d_, 'main.xsd'))
+            else:
+                r = parse_schema_string(doc)
+            seen = ' '.join('%s %s %s' % (ns, sorted(map(str, sc.types)), sorted(map(str, sc.elements))) for ns, sc in r.items())
+            seen += ' ' + ' '.join(repr(t) for sc in r.values() for t in sc.types.values())[:20000]
+            return {'result': seen, 'exc': None}
+        except Exception as e:
+            return {'result': '', 'exc': type(e).__name__, 'msg': str(e)[:300]}
+
     def run(self, q):
         import resource
         self.files_opened()
         del self.hits[:]
         rss0 = resource.getrusage(resource.RUSAGE_SELF).ru_maxrss
         t0 = time.time()
-        r = self.op_parse(q) if q['op'] == 'parse' else self.op_handle(q)
+        r = self.op_parse(q) if q['op'] == 'parse' else self.op_schema(q) if q['op'] == 'schema' else self.op_handle(q)
         wall = time.time() - t0
         rss1 = resource.getrusage(resource.RUSAGE_SELF).ru_maxrss
         time.sleep(0)  # let the canary thread run
@@ -502,6 +579,20 @@ def worker_main(directory, token):
             r = {'worker_error': repr(e)}
         out.write(json.dumps(r) + '\n')
         out.flush()
+    _save_coverage()
+
+
+def _save_coverage():
+    """when the check runs under coverage.py (tools/covreport.py) the workers hand in their data, too"""
+    if os.environ.get('COVERAGE_PROCESS_START'):
+        try:
+            import coverage
+            c = coverage.Coverage.current()
+            if c is not None:
+                c.stop()
+                c.save()
+        except Exception:
+            pass
 
 
 class Pool:
@@ -573,7 +664,7 @@ class Pool:
                 k += 1
             try:
                 p.stdin.close()
-                p.wait(timeout=5)
+                p.wait(timeout=60 if os.environ.get('COVERAGE_PROCESS_START') else 5)
             except Exception:
                 p.kill()
         ths = [threading.Thread(target=work, args=(i, ch)) for i, ch in enumerate(chunks) if ch]
@@ -806,35 +897,42 @@ def measure_lib(scratch):
             pass
     s.close()
     lib['netSupported'] = hit
-    # lxml's module default parser, by behaviour
+    # lxml's module default parser and the schema tools' module-level PARSER, by behaviour
+    open(os.path.join(scratch, 'r50'), 'w').write('<!ENTITY e900 "D">')
+    lib['lxmlDefault'] = behavioural_kw(None, w, lib['maxDepth'])
+    from spyne.interface.xml_schema import parser as schema_parser
+    lib['schemaToolKw'] = behavioural_kw(getattr(schema_parser, 'PARSER', None), w, lib['maxDepth'])
+    shutil.rmtree(scratch, ignore_errors=True)
+    return lib
+
+
+def behavioural_kw(parser, w, max_depth):
+    """the keyword table of a parser object (None = lxml's module default), measured by what it does"""
+    from lxml import etree
+    P = lambda doc: etree.fromstring(doc, parser=parser)
     d = dict(DEFAULT_KW)
     try:
-        r = etree.fromstring(b'<!DOCTYPE r [<!ENTITY e1 "X"><!ENTITY e2 SYSTEM "%s">]><r><a>&e1;</a><b>&e2;</b><!--c--><?p i?></r>'
-                             % w.uri(('file', 1)).encode())
+        r = P(b'<!DOCTYPE r [<!ENTITY e1 "X"><!ENTITY e2 SYSTEM "%s">]><r><a>&e1;</a><b>&e2;</b><!--c--><?p i?></r>'
+              % w.uri(('file', 1)).encode())
         exp_int = r[0].text == 'X'
         exp_ext = r[1].text == 'PROBE'
         d['resolve_entities'] = 'all' if exp_ext else 'internal' if exp_int else 'off'
-        d['remove_comments'] = not any(isinstance(c, etree._Comment) for c in r)
-        d['remove_pis'] = not any(isinstance(c, etree._ProcessingInstruction) for c in r)
     except etree.XMLSyntaxError:
         d['resolve_entities'] = 'internal'        # lxml >= 5: an external entity is "not defined"
-        r = etree.fromstring(b'<r><!--c--><?p i?></r>')
-        d['remove_comments'] = not any(isinstance(c, etree._Comment) for c in r)
-        d['remove_pis'] = not any(isinstance(c, etree._ProcessingInstruction) for c in r)
+    r = P(b'<r><!--c--><?p i?></r>')
+    d['remove_comments'] = not any(isinstance(c, etree._Comment) for c in r)
+    d['remove_pis'] = not any(isinstance(c, etree._ProcessingInstruction) for c in r)
     try:
-        etree.fromstring(b'<a>' * (lib['maxDepth'] + 5) + b'</a>' * (lib['maxDepth'] + 5))
+        P(b'<a>' * (max_depth + 5) + b'</a>' * (max_depth + 5))
         d['huge_tree'] = True
     except etree.XMLSyntaxError:
         d['huge_tree'] = False
-    open(os.path.join(scratch, 'r50'), 'w').write('<!ENTITY e900 "D">')
     try:
-        r = etree.fromstring(('<!DOCTYPE r SYSTEM "%s"><r k="&e900;"/>' % w.uri(('file', 50))).encode())
+        r = P(('<!DOCTYPE r SYSTEM "%s"><r k="&e900;"/>' % w.uri(('file', 50))).encode())
         d['load_dtd'] = r.get('k') == 'D'
     except etree.XMLSyntaxError:
         d['load_dtd'] = False
-    lib['lxmlDefault'] = d
-    shutil.rmtree(scratch, ignore_errors=True)
-    return lib
+    return d
 
 
 def _quiet(f):
@@ -1382,7 +1480,8 @@ def measure_sites_behaviour():
     return out, fresh
 
 
-KINDS = ['unicode', 'arrayItem', 'nestedMember', 'xmlData', 'anyDictLeaf', 'anyXml', 'anyHtml']
+KINDS = ['unicode', 'arrayItem', 'nestedMember', 'xmlData', 'anyDictLeaf', 'anyXml', 'anyHtml', 'multiMember', 'integer',
+         'byteArray', 'enumValue', 'iterableItem', 'headerMember', 'hrefTarget']
 
 
 def measure_deliver():
@@ -1403,7 +1502,7 @@ def measure_deliver():
 
     def run(doc):
         del captured[:]
-        srv = ServerBase(app)
+        srv = ServerBase(app)       # (`app` is rebound below for the SOAP-only kinds)
         ctx = MethodContext(srv, MethodContext.SERVER)
         ctx.in_string = [render(doc, world)]
         try:
@@ -1420,15 +1519,29 @@ def measure_deliver():
     for pos, (kind, _tag) in PROBE_POS.items():
         r = run(probe_doc_req('xml', ent, world, pos, toks))
         obs[kind] = None if r is None else r[{'x.leaf': 'x', 'h.p': 'h'}.get(pos, pos)]
+    expect = {}
+    for pos, (kind, _tag) in TYPED_POS.items():
+        lit_, ent_, subst = TYPED_FILL[pos]
+        r = run(typed_doc_req('xml', dtd(TYPED_DTD), world, pos, [T(lit_), ref(ent_)]))
+        obs[kind] = None if r is None else r[pos]
+        expect[kind] = (lit_, subst)
+    # SOAP-only paths: header members, multi-reference targets
+    s11 = proto_classes()['soap11']
+    app = Application([Svc], TNS, in_protocol=s11(), out_protocol=s11())
+    r = run(request_doc('soap11', ent, world, text=('hdr.token', toks)))
+    obs['headerMember'] = None if r is None else r['hdr.token']
+    r = run(request_doc('soap11', ent, world, text=('href.s', toks)))
+    obs['hrefTarget'] = None if r is None else r['s']
     for kind, v in obs.items():
+        lit_, subst = expect.get(kind, ('pre-', None))
         if v is None:
             rules[kind] = 'refused'          # the method was not called at all
-        elif 'IENT1' in v:
+        elif 'IENT1' in v or v == subst:
             rules[kind] = 'stringValue'
         elif kind in ('anyXml', 'anyHtml'):
             rules[kind] = 'element' if '&e1;' in v else 'other'
         else:
-            rules[kind] = 'textNodesOnly' if v == 'pre-' else 'other'
+            rules[kind] = 'textNodesOnly' if v == lit_ else 'other'
     return rules
 
 
@@ -1586,6 +1699,7 @@ def facts17 : Facts17 where
   deliver := fun k => match k with
 %s
   lxmlDefault := %s
+  schemaToolKw := %s
   lib := lib17
 
 end SpyneModel.Generated
@@ -1595,7 +1709,8 @@ end SpyneModel.Generated
        per_proto(plumb), per_proto(lambda p: lean_args(f['ctor'][p])), per_proto(lambda p: lean_kw(f['live'][p])),
        lean_bool(f['kwIsolated']), lean_bool(f['parserPerRequest']), sites, f['xincludeCalls'],
        sum(len(v) for v in f['extra'].values()), per_pv(post), per_pv(lambda p, v: lean_kw(f['liveAt'][p][v])),
-       len(f['kwWrites']), '\n'.join('    | .%s => .%s' % (k, f['deliver'][k]) for k in KINDS), lean_kw(lib['lxmlDefault']))
+       len(f['kwWrites']), '\n'.join('    | .%s => .%s' % (k, f['deliver'][k]) for k in KINDS), lean_kw(lib['lxmlDefault']),
+       lean_kw(lib['schemaToolKw']))
 
 
 
@@ -1806,21 +1921,21 @@ def configs():
 # ---------------------------------------------------------------------------------------- requests
 TEXT_POS = ['s', 'name', 'note', 'lst0', 'lst1']
 CONTENT_POS = ['echo.pre', 'echo.post', 'item.pre', 'lst.pre']
-SOAP_CONTENT_POS = ['env.pre', 'body.post']
+SOAP_CONTENT_POS = ['env.pre', 'body.post', 'hdr.token', 'href.s', 'fault']
 VALIDATED_POS = ['s', 'lst0', 'echo.pre', 'tag', 's@x', 'env@x']
-ATTR_POS = ['tag', 'echo@x', 's@x', 'item@x', 'name@x', 'lst@x', 'lst0@x']
+ATTR_POS = ['tag', 'item@{%s}nil' % NS_XSI, 'item@{%s}type' % NS_XSI, 's@{%s}type' % NS_XSI, 'echo@x', 's@x', 'item@x', 'name@x', 'lst@x', 'lst0@x']
 SOAP_ATTR_POS = ['env@x', 'body@x']
 
 
-def request_doc(proto, d, world, text=None, attr=None, many_attrs=None, omit_tag=False, nonascii=False):
+def request_doc(proto, d, world, text=None, attr=None, many_attrs=None, omit_tag=False, nonascii=False, fault_body=False):
     """a valid echo request with `text` = (position, tokens) and/or `attr` = (position, pieces) filled in"""
     tp, tt = text if text else (None, None)
     ap, av = attr if attr else (None, None)
 
     def at(elem, declared=()):
         a = list(declared)
-        if ap == elem + '@x':
-            a.append(('x', av))
+        if ap and ap.startswith(elem + '@') and ap != 'tag':
+            a.append((ap.split('@', 1)[1], av))
         if many_attrs and many_attrs[0] == elem:
             a += [('m%d' % i, [lit('v')]) for i in range(many_attrs[1])]
         return a
@@ -1830,20 +1945,40 @@ def request_doc(proto, d, world, text=None, attr=None, many_attrs=None, omit_tag
 
     def slot(pos):
         return tt if tp == pos else []
-    body = [O('{%s}echo' % TNS, at('echo'))] + slot('echo.pre') + leaf('s', 's', 'hello')
+    if tp == 'href.s':
+        # SOAP 1.1 multi-reference: <s href="#r1"/> takes text, children and attributes from the element with id="r1"
+        s_elem = [O('{%s}s' % TNS, [('href', [lit('#r1')])]), C]
+    else:
+        s_elem = leaf('s', 's', 'hello')
+    body = [O('{%s}echo' % TNS, at('echo'))] + slot('echo.pre') + s_elem
     body += [O('{%s}item' % TNS, at('item', [] if omit_tag else [('tag', av if ap == 'tag' else [lit('tg')])]))] + slot('item.pre')
     body += leaf('name', 'name', 'nm') + leaf('note', 'note', 'nt\xe9' if nonascii else 'nt') + [C]
     body += [O('{%s}lst' % TNS, at('lst'))] + slot('lst.pre') + leaf('string', 'lst0', 'l0') + leaf('string', 'lst1', 'l1') + [C]
     body += slot('echo.post') + [C]
     if proto != 'xml':
         ns = NS_S11 if proto == 'soap11' else NS_S12
-        body = [O('{%s}Envelope' % ns, at('env'))] + slot('env.pre') + [O('{%s}Body' % ns, at('body'))] + body + slot('body.post') + [C, C]
+        if fault_body:
+            # a request whose Body is a Fault element (what a client would receive), with the payload in its text
+            body = [O('{%s}Fault' % ns), O('faultcode'), T('Client.x'), C, O('faultstring')] + (tt or [T('fs')]) + [C, C]
+        hdr = []
+        if tp == 'hdr.token':
+            hdr = [O('{%s}Header' % ns), O('{%s}Hdr' % TNS), O('{%s}token' % TNS)] + tt + [C, C, C]
+        ref_ = [O('{%s}ref' % TNS, [('id', [lit('r1')])])] + tt + [C] if tp == 'href.s' else []
+        body = [O('{%s}Envelope' % ns, at('env'))] + slot('env.pre') + hdr + [O('{%s}Body' % ns, at('body'))] + body + \
+            slot('body.post') + ref_ + [C, C]
     return mkdoc(d, body, world)
 
 
 PROBE_POS = {          # position -> (kind, tag of the leaf element that carries the value)
     'd.key': ('anyDictLeaf', 'key'), 'x.leaf': ('anyXml', 'leaf'), 'h.p': ('anyHtml', 'p'),
-    'w.val': ('xmlData', '{%s}w' % TNS), 'o.v': ('nestedMember', '{%s}v' % TNS), 'o.arr0': ('arrayItem', '{%s}string' % TNS)}
+    'w.val': ('xmlData', '{%s}w' % TNS), 'o.v': ('nestedMember', '{%s}v' % TNS), 'o.arr0': ('arrayItem', '{%s}string' % TNS),
+    'o.multi0': ('multiMember', '{%s}multi' % TNS)}
+TYPED_POS = {'n': ('integer', '{%s}n' % TNS), 'b': ('byteArray', '{%s}b' % TNS), 'e': ('enumValue', '{%s}e' % TNS),
+             'it0': ('iterableItem', '{%s}string' % TNS)}
+# per typed position: (valid literal, entity whose replacement text would extend it to another valid literal, that literal)
+TYPED_FILL = {'n': ('12', 2, '1234'), 'b': ('QUJD', 3, 'QUJDREVG'), 'e': ('pre', 4, 'preX'), 'it0': ('pre-', 1, 'pre-IENT1')}
+TYPED_DTD = [(1, {'int': [{'l': [ord(c) for c in 'IENT1']}]}), (2, {'int': [{'l': [ord(c) for c in '34']}]}),
+             (3, {'int': [{'l': [ord(c) for c in 'REVG']}]}), (4, {'int': [{'l': [ord(c) for c in 'X']}]})]
 
 
 def probe_doc_req(proto, d, world, pos=None, toks=None):
@@ -1857,8 +1992,22 @@ def probe_doc_req(proto, d, world, pos=None, toks=None):
     body += [O(t('x')), O('any'), O('leaf')] + c('x.leaf', 'xv') + [C, C, C]
     body += [O(t('h')), O('div'), O('p')] + c('h.p', 'hv') + [C, C, C]
     body += [O(t('w'), [('at', [lit('av')])])] + c('w.val', 'wv') + [C]
-    body += [O(t('o')), O(t('inner')), O(t('v'))] + c('o.v', 'ov') + [C, O(t('arr')), O(t('string'))] + c('o.arr0', 'a0') + [C, C, C, C]
+    body += [O(t('o')), O(t('inner')), O(t('v'))] + c('o.v', 'ov') + [C, O(t('arr')), O(t('string'))] + c('o.arr0', 'a0') + [C, C]
+    body += [O(t('multi'))] + c('o.multi0', 'm0') + [C, O(t('multi')), T('m1'), C, C, C]
     body += [C]
+    if proto != 'xml':
+        ns = NS_S11 if proto == 'soap11' else NS_S12
+        body = [O('{%s}Envelope' % ns), O('{%s}Body' % ns)] + body + [C, C]
+    return mkdoc(d, body, world)
+
+
+def typed_doc_req(proto, d, world, pos=None, toks=None):
+    """a valid request of the `typed` method (Integer, ByteArray, Enum, Iterable)"""
+    def c(p_, default):
+        return toks if pos == p_ else [T(default)]
+    t = lambda n: '{%s}%s' % (TNS, n)
+    body = [O(t('typed')), O(t('n'))] + c('n', '7') + [C, O(t('b'))] + c('b', 'QUJD') + [C, O(t('e'))] + c('e', 'pre') + [C]
+    body += [O(t('it')), O(t('string'))] + c('it0', 'i0') + [C, C, C]
     if proto != 'xml':
         ns = NS_S11 if proto == 'soap11' else NS_S12
         body = [O('{%s}Envelope' % ns), O('{%s}Body' % ns)] + body + [C, C]
@@ -1920,21 +2069,30 @@ def request_corpus(ctx, lib, world):
             if label.startswith('ext-subset-attlist'):
                 placements = [('text', 's')]
             for kind, pos in placements:
-                doc = request_doc(proto, d, world, text=(pos, toks) if kind == 'text' else None,
+                if pos in ('hdr.token', 'href.s', 'fault') and not (toks and all(isinstance(t_, dict) and ('t' in t_ or 'r' in t_) for t_ in toks)):
+                    continue        # these positions carry character data only
+                ptoks = [T('pre-')] + toks if pos in ('hdr.token', 'href.s') else toks
+                doc = request_doc(proto, d, world, text=(pos, ptoks) if kind == 'text' else None,
                                   attr=(pos, pieces) if kind == 'attr' else None,
-                                  omit_tag=label.startswith('ext-subset-attlist'))
+                                  omit_tag=label.startswith('ext-subset-attlist'), fault_body=(pos == 'fault'))
                 exp = 'reject' if expect == 'reject' or (expect == 'reject-attr' and kind == 'attr') else 'any'
-                for tr, mp in (('server', False), ('wsgi', False)) + ((('wsgi', True), ('wsgi', 'cloc')) if proto != 'xml' else ()):
-                    if mp == 'cloc' and pos not in VALIDATED_POS:
+                for tr, mp in (('server', False), ('wsgi', False)) + ((('wsgi', True), ('wsgi', 'cloc'), ('wsgi', 'single')) if proto != 'xml' else ()):
+                    if mp in ('cloc', 'single') and pos not in VALIDATED_POS:
                         continue
                     for val in VALIDATORS:
-                        if mp == 'cloc' and val is not None:
+                        if mp in ('cloc', 'single') and val is not None:
                             continue
                         # every position without a validator; the configuration paths through set_validator /
                         # set_app (soft, lxml) at a representative subset of the positions
                         if val is not None and pos not in VALIDATED_POS:
                             continue
-                        cases.append(({'payload': label, 'pos': pos, 'kind': kind, 'expect': exp, 'validator': VNAME[val]},
+                        extra_meta = {}
+                        if pos == 'hdr.token':
+                            extra_meta = {'deliver': ('headerMember', '{%s}token' % TNS), 'field': 'hdr.token'}
+                        elif pos == 'href.s':
+                            # (the tree seen at before_deserialize was already rewritten by resolve_hrefs: not compared)
+                            extra_meta = {'deliver': ('hrefTarget', '{%s}ref' % TNS), 'field': 's', 't2skip': True}
+                        cases.append((dict({'payload': label, 'pos': pos, 'kind': kind, 'expect': exp, 'validator': VNAME[val]}, **extra_meta),
                                       {'op': 'handle', 'proto': proto, 'tr': tr, 'validator': val,
                                        'req': {'doc': doc, 'multipart': mp, 'unicode_decl': False}}))
         # values that other code takes out of the tree: AnyDict, AnyXml, AnyHtml, XmlData, nested members, array items
@@ -1949,6 +2107,16 @@ def request_corpus(ctx, lib, world):
                     cases.append(({'payload': label, 'pos': pos, 'kind': 'text', 'expect': 'reject' if expect == 'reject' else 'any',
                                    'deliver': PROBE_POS[pos]},
                                   {'op': 'handle', 'proto': proto, 'tr': tr, 'req': {'doc': doc, 'multipart': False, 'unicode_decl': False}}))
+        # values of non-text types: the literal in front of the reference is valid on its own, and would be another valid
+        # literal if the replacement text were substituted (12|34, QUJD|REVG, pre|X)
+        for pos, (lit_, ent_, subst) in TYPED_FILL.items():
+            doc = typed_doc_req(proto, dtd(TYPED_DTD), world, pos, [T(lit_), ref(ent_)])
+            for tr in ('server', 'wsgi'):
+                for val in VALIDATORS:
+                    cases.append(({'payload': 'typed-internal', 'pos': pos, 'kind': 'text', 'expect': 'any', 'deliver': TYPED_POS[pos],
+                                   'forbidden': subst, 'validator': VNAME[val]},
+                                  {'op': 'handle', 'proto': proto, 'tr': tr, 'validator': val,
+                                   'req': {'doc': doc, 'multipart': False, 'unicode_decl': False}}))
         # the document ENCODING: non-UTF-8 bytes (ISO-8859-1 with a declaration and a non-ASCII character, UTF-16 with
         # a byte order mark), announced or not by the Content-Type, crossed with the hostile kinds
         variants = [('server', e, None) for e in ('iso-8859-1', 'utf-16')] + \
@@ -2079,7 +2247,8 @@ def run(ctx):
     ctx.facts = f
     lib = f['lib']
     ctx.write_generated('Facts17.lean', facts_lean(f))
-    ctx.cov['facts'] = {'live_defaults': f['live'], 'lib': {k: v for k, v in lib.items() if k != 'lxmlDefault'},
+    ctx.cov['facts'] = {'live_defaults': f['live'], 'lib': {k: v for k, v in lib.items() if k not in ('lxmlDefault', 'schemaToolKw')},
+                        'schema_tool_parser': lib['schemaToolKw'],
                         'lxml_default_parser': lib['lxmlDefault'],
                         'request_path_sites': [s for s in f['sites'] if s['role'] != 'offPath'],
                         'off_path_sites': len([s for s in f['sites'] if s['role'] == 'offPath'])}
@@ -2156,6 +2325,17 @@ def _run_cases(ctx, f, lib, pool):
     for meta, q in reqs:
         Q.append(dict(q, kw='defaults'))
         META.append(dict(meta, t3=True))
+    # the schema tools (off the request path, anchored): hostile XSD documents under the canaries
+    for label, d, toks, pieces, expect in payloads(lib):
+        if toks is None or pieces is None or not all(isinstance(t_, dict) and ('t' in t_ or 'r' in t_) for t_ in toks):
+            continue
+        text = [{'l': t_['t']} if 't' in t_ else {'r': t_['r']} for t_ in toks]
+        Q.append({'op': 'schema', 'kw': 'n/a', 'dtd': d, 'text': text, 'attr': [lit('')], 'label': label})
+        META.append({'payload': label, 'pos': 'xsd.documentation', 'schema': True})
+        Q.append({'op': 'schema', 'kw': 'n/a', 'dtd': d, 'text': [lit('doc')], 'attr': pieces, 'label': label})
+        META.append({'payload': label, 'pos': 'xsd.element@name', 'schema': True})
+        Q.append({'op': 'schema', 'kw': 'n/a', 'via': 'file', 'dtd': d, 'text': text, 'attr': [lit('')], 'label': label})
+        META.append({'payload': label, 'pos': 'included-xsd.documentation', 'schema': True})
     # history: an unsafe instance of the same class is constructed after the default one
     plx = {p[0]: p for p in payloads(lib)}
     for proto in PROTOS:
@@ -2188,14 +2368,16 @@ def _run_cases(ctx, f, lib, pool):
     R = pool.run(Q, keys=[('%s|%s' % (m_.get('payload', m_.get('label')), q_.get('proto'))) for q_, m_ in zip(Q, META)])
     ctx.log('implementation side done (%.1fs)' % (time.time() - t))
     t = time.time()
-    MQ = [q for q, _ in KQ] + [dict(q, env=env0, kw=DEFAULT_KW if q['kw'] == 'defaults' else q['kw']) for q in Q]
+    MQ = [q for q, _ in KQ] + [dict(q, env=env0, kw=DEFAULT_KW if q['kw'] == 'defaults' else q['kw']) if q['op'] != 'schema'
+                               else {'op': 'kwargs', 'proto': 'xml', 'validator': 'none', 'args': dict({a: DEFAULT_KW[a] for a in BOOL_ARGS}, resolve_entities='off')}
+                               for q in Q]
     # what user code receives for an attacked leaf, per kind of value
     DQ = []
     for i, (q, meta) in enumerate(zip(Q, META)):
         dl = meta.get('deliver') or (('unicode', '{%s}s' % TNS) if q['op'] == 'handle' and meta.get('pos') == 's'
                                      and meta.get('kind') == 'text' and q['kw'] == 'defaults' else None)
         if dl and dl[0] not in ('anyXml', 'anyHtml') and meta['payload'].split(':')[0] in (
-                'internal', 'ext-general', 'ext-in-internal', 'ext-param', 'ext-subset', 'chain', 'benign'):
+                'internal', 'ext-general', 'ext-in-internal', 'ext-param', 'ext-subset', 'chain', 'benign', 'typed-internal'):
             DQ.append((i, dl))
             MQ.append({'op': 'deliver', 'kind': dl[0], 'tag': dl[1], 'doc': q['req']['doc'], 'kw': DEFAULT_KW, 'env': env0})
     # the model does not depend on the validator: identical queries are evaluated once
@@ -2203,7 +2385,7 @@ def _run_cases(ctx, f, lib, pool):
         mq.pop('validator', None) if mq.get('op') == 'handle' else None
         mq.pop('history', None)
         if mq.get('op') == 'handle':
-            mq['req'] = {'doc': mq['req']['doc'], 'multipart': bool(mq['req'].get('multipart')),
+            mq['req'] = {'doc': mq['req']['doc'], 'multipart': mq['req'].get('multipart') in (True, 'cloc'),
                          'unicode_decl': bool(mq['req'].get('unicode_decl'))}
     uniq, order = {}, []
     for mq in MQ:
@@ -2226,13 +2408,23 @@ def _run_cases(ctx, f, lib, pool):
     def fetch_mismatch(q, r, m):
         return q['op'] == 'parse' and 'wall' in r and (r.get('files', []), bool(r.get('net'))) != model_fetch_obs(m, lib)
     sus = [i for i, (q, r, m) in enumerate(zip(Q, R, M))
-           if (q['kw'] in ('defaults', DEFAULT_KW) and (r.get('files') or r.get('net'))) or fetch_mismatch(q, r, m)]
+           if (q['kw'] in ('defaults', DEFAULT_KW, 'n/a') and (r.get('files') or r.get('net') or r.get('dead')
+                                                            or r.get('wall', 0) > TIME_LIMIT_S or r.get('rss_kb', 0) > RSS_LIMIT_KB))
+           or fetch_mismatch(q, r, m)]
+    # (a tree that really is slow or hungry shows it on the first dozen re-runs; do not re-run hundreds of bombs)
+    heavy = [i for i in sus if R[i].get('dead') or R[i].get('wall', 0) > TIME_LIMIT_S or R[i].get('rss_kb', 0) > RSS_LIMIT_KB]
+    sus = [i for i in sus if i not in set(heavy[12:])]
     if sus:
         again = Pool(ctx, 1)
         try:
-            for i, r2 in zip(sus, again.run([Q[i] for i in sus])):
-                if 'wall' not in r2:
+            for i, r2 in zip(sus, again.run([Q[i] for i in sus], timeout=10.0)):
+                if R[i].get('dead') and 'wall' in r2 and not r2.get('dead'):
+                    R[i] = r2           # the worker was starved (loaded machine), not the request expensive
                     continue
+                if 'wall' not in r2 or r2.get('dead'):
+                    continue
+                R[i]['wall'] = min(R[i].get('wall', 0), r2['wall'])
+                R[i]['rss_kb'] = min(R[i].get('rss_kb', 0), r2['rss_kb'])
                 R[i]['files'] = sorted(set(R[i].get('files') or []) & set(r2.get('files') or []))
                 R[i]['net'] = min(R[i].get('net') or 0, r2.get('net') or 0)
                 R[i]['reconfirmed'] = True
@@ -2250,7 +2442,7 @@ def _run_cases(ctx, f, lib, pool):
         r = R[i]
         if 'ok' not in md or not r.get('captured'):
             continue
-        field = 's' if dl[0] == 'unicode' else META[i]['pos']
+        field = META[i].get('field') or ('s' if dl[0] == 'unicode' else META[i]['pos'])
         got = r['captured'][0].get(field)
         ctx.case({'op': 'deliver', 'kind': dl[0], 'payload': META[i]['payload'], 'proto': Q[i]['proto'], 'tr': Q[i]['tr'],
                   'val': Q[i].get('validator'), 'mp': Q[i]['req'].get('multipart')})
@@ -2266,6 +2458,21 @@ def _run_cases(ctx, f, lib, pool):
         secrets = world.secrets()
         if r.get('worker_error') and 'inotify' in str(r.get('worker_error')):
             raise core.Infra('worker: %s' % r['worker_error'])
+        if q['op'] == 'schema':
+            ctx.case({'op': 'schema', 'payload': meta['payload'], 'pos': meta['pos']})
+            ctx.hit('op:schema')
+            ctx.hit('schema:' + ('parsed' if r.get('exc') is None and 'result' in r else str(r.get('exc') or r.get('dead'))))
+            ctx.cov['traces_validated_against_impl'] += 1
+            rep = {'query': q, 'case': 'schema tool %s@%s' % (meta['payload'], meta['pos']), 'observed': r}
+            if r.get('dead') or r.get('worker_error'):
+                ctx.finding('t3:resource:schema-tool', 'parse_schema_string on %s exhausted time or memory' % meta['payload'], rep)
+            elif r.get('files') or r.get('net'):
+                ctx.finding('t3:file-read:schema-tool', 'parse_schema_string (%s) opened %s' % (meta['payload'], r.get('files') or 'the network'), rep)
+            elif any(sct in (r.get('result', '') + r.get('msg', '')) for sct in secrets):
+                ctx.finding('t3:leak:schema-tool', 'parse_schema_string (%s): content of an external resource in the result' % meta['payload'], rep)
+            elif r['wall'] > TIME_LIMIT_S or r['rss_kb'] > RSS_LIMIT_KB:
+                ctx.finding('t3:resource:schema-tool', 'parse_schema_string (%s) took %.2fs / %d kB' % (meta['payload'], r['wall'], r['rss_kb']), rep)
+            continue
         if q['op'] == 'parse':
             ctx.case({'op': 'parse', 'kw': q['kw'], 'doc': q['doc']}, nontrivial=meta['label'] != 'plain')
             ctx.hit('op:parse')
@@ -2286,11 +2493,11 @@ def _run_cases(ctx, f, lib, pool):
             continue
         # ---------------- handle
         vtag = '/validator=%s' % q['validator'] if q.get('validator') else ''
-        desc = '%s/%s%s%s %s@%s' % (q['proto'], q['tr'], ('/multipart' + ('-cloc' if q['req']['multipart'] == 'cloc' else '')) if q['req']['multipart'] else '', vtag, meta['payload'], meta['pos'])
+        desc = '%s/%s%s%s %s@%s' % (q['proto'], q['tr'], ('/multipart' + ('-' + q['req']['multipart'] if isinstance(q['req']['multipart'], str) else '')) if q['req']['multipart'] else '', vtag, meta['payload'], meta['pos'])
         ctx.case({'op': 'handle', 'proto': q['proto'], 'tr': q['tr'], 'mp': q['req']['multipart'], 'ud': q['req']['unicode_decl'], 'val': q.get('validator'),
                   'kw': short_kw(q['kw']), 'payload': meta['payload'], 'pos': meta['pos'], 'kind': meta['kind']})
         ctx.hit('op:handle')
-        ctx.hit('proto:%s/%s%s' % (q['proto'], q['tr'], ('/multipart' + ('-cloc' if q['req']['multipart'] == 'cloc' else '')) if q['req']['multipart'] else ''))
+        ctx.hit('proto:%s/%s%s' % (q['proto'], q['tr'], ('/multipart' + ('-' + q['req']['multipart'] if isinstance(q['req']['multipart'], str) else '')) if q['req']['multipart'] else ''))
         ctx.hit('payload:' + meta['payload'].split(':')[0])
         ctx.hit('validator:%s' % (q.get('validator') or 'none'))
         if meta.get('enc'):
@@ -2300,7 +2507,7 @@ def _run_cases(ctx, f, lib, pool):
         impl = impl_handle_canon(r, world)
         mod = model_handle_canon(m)
         if meta.get('t2skip'):
-            ctx.hit('handle:charset-mismatch-not-compared')
+            ctx.hit('handle:not-compared:' + ('href-rewritten' if meta['pos'] == 'href.s' else 'charset-mismatch'))
         elif impl is None:
             ctx.hit('handle:failed-after-parse:' + str(r.get('crash') or r.get('fault')))
         else:
@@ -2314,7 +2521,7 @@ def _run_cases(ctx, f, lib, pool):
         # ---------------- T3: the property itself, default settings
         ctx.cov['traces_validated_against_impl'] += 1
         rep = {'query': q, 'case': desc, 'observed': {k: v for k, v in r.items() if k != 'seen'}}
-        site = '%s:%s%s%s' % (q['proto'], q['tr'], (':multipart' + ('-cloc' if q['req']['multipart'] == 'cloc' else '')) if q['req']['multipart'] else '',
+        site = '%s:%s%s%s' % (q['proto'], q['tr'], (':multipart' + ('-' + q['req']['multipart'] if isinstance(q['req']['multipart'], str) else '')) if q['req']['multipart'] else '',
                               ':after-unsafe-sibling' if q.get('history') else '') + \
             (':validator=%s' % q['validator'] if q.get('validator') else '')
         if r.get('dead') or r.get('worker_error'):
@@ -2340,6 +2547,10 @@ def _run_cases(ctx, f, lib, pool):
                 if k_ in ('tag', 'w@at'):
                     continue
                 vals += [x_ for x_ in (v_ if isinstance(v_, list) else [v_]) if isinstance(x_, str)]
+            if meta.get('forbidden') and meta['forbidden'] in vals:
+                ctx.finding('t3:text-entity-expanded:%s' % site,
+                            'request %s: user code received %r, the literal extended by the replacement text of the entity '
+                            'referenced after it' % (desc, meta['forbidden']), rep)
             if any('IENT' in v for v in vals):
                 ctx.finding('t3:text-entity-expanded:%s' % site,
                             'request %s: an entity reference in element content was replaced by its replacement text in what '
@@ -2443,7 +2654,7 @@ def replay(ctx, obj):
         try:
             mq = dict(q, env=env_for(w, f['lib']), kw=DEFAULT_KW if q['kw'] == 'defaults' else q['kw'])
             if mq.get('op') == 'handle':
-                mq['req'] = dict(mq['req'], multipart=bool(mq['req'].get('multipart')))
+                mq['req'] = dict(mq['req'], multipart=mq['req'].get('multipart') in (True, 'cloc'))
             m = model_limited(ctx, [mq])[0]
             print('model         :', show(m))
         except Exception as e:
